@@ -83,5 +83,8 @@ let handle (cmd : string) (args : t list) : t option =
        else Some (L [A "failed"; A ("i" ^ string_of_int st)])
      | Raise e -> Some (L [A "raise"; m_exn_sexp e])
      | OutOfFuel -> Some (L [A "outoffuel"]))
+  | "mergeat", [c; lt; root; L targets; d; r] ->
+    let locs = List.map (function L refs -> List.map ref_of_sexp refs | x -> failwith ("bad loc " ^ to_string x)) targets in
+    Some (m_outcome doc_out (merge_at (lit_of lt) (cfg_of c) (bool_of_sym root) locs (node_of_sexp d) (node_of_sexp r)))
   | "node-eq", [a; b] -> Some (bs (node_eq (node_of_sexp a) (node_of_sexp b)))
   | _ -> None
